@@ -345,6 +345,9 @@ var (
 	allFuncs = map[string]*funcInfo{}
 	order    []*funcInfo
 	fatal    []string
+	// nested acquisitions that cannot be placed in the lock-class order: the
+	// skeleton is still written (the balance obligations can be evaluated), exit status 3
+	orderFatal []string
 )
 
 func typeBase(e ast.Expr) string {
@@ -2117,4 +2120,10 @@ func main() {
 		os.WriteFile(*statsOut, data, 0o644)
 	}
 	fmt.Fprintln(os.Stderr, string(data))
+	if len(orderFatal) > 0 {
+		for _, f := range orderFatal {
+			fmt.Fprintln(os.Stderr, "translator: not understood: "+f)
+		}
+		os.Exit(3)
+	}
 }
